@@ -135,6 +135,8 @@ def _peval(e, case, env):
             return a
         if isinstance(x, ast.Call) and U(x.func) in ("set", "list", "tuple", "frozenset") and len(x.args) == 1:
             return val(x.args[0])
+        if isinstance(x, ast.Call) and U(x.func) == "ScreenSubset.concat":
+            return "object"          # the union of plates (an element of the list, a Plate, or an exception): never None, and not a batch id list
         return None
 
     def ev(t):
@@ -167,6 +169,8 @@ def _peval(e, case, env):
                     return (v == "none") == isinstance(op, ast.Is)
             if isinstance(op, (ast.In, ast.NotIn)):
                 v = val(r)
+                if v == "object":
+                    return t
                 if v == "empty":
                     return isinstance(op, ast.NotIn)
                 if v == "batch":
@@ -179,7 +183,7 @@ def _peval(e, case, env):
                     return (case == res)
             return t
         v = val(t) if isinstance(t, (ast.Name, ast.IfExp)) else None
-        if v is not None and (isinstance(t, ast.Name) and (t.id == BATCH or t.id in env)):
+        if v is not None and v != "object" and (isinstance(t, ast.Name) and (t.id == BATCH or t.id in env)):
             return v == "batch"          # truthiness of the list
         return t
     return ev(e)
